@@ -182,7 +182,7 @@ func exactFact(env *fw.PolyEnv, b *ssa.BasicBlock, q fw.Cmp) bool {
 }
 
 func c20Stack(r *fw.Run, cs *c20ctx) {
-	ru := r.Rule("C20.stack", "stack discipline: Push records the index = length before appending; the pop closure is idempotent, only calls elements with index >= its own index (from len-1 down), truncates to [0:index] on every effective path; Stop calls every element and closes the stop channel the trigger goroutine exits on; the trigger goroutine calls only the top element, only under a non-empty test, once per trigger, and returns only when the stop channel is closed", 10)
+	ru := r.Rule("C20.stack", "stack discipline: Push derives the context from its parent, returns it and pushes the cancel function of that very context, records the index = length before appending; the pop closure is idempotent, only calls elements with index >= its own index and some loop of it calls EVERY element own..len-1, truncates to [0:index] on every effective path; Stop calls every element and closes the stop channel the trigger goroutine exits on; the trigger goroutine calls only the top element, only under a non-empty test, once per trigger, and returns only when the stop channel is closed", 13)
 	p := cs.p
 	nw := getFn(ru, p, "internal/ctxstack.New")
 	push := getFn(ru, p, "(*internal/ctxstack.Stack).Push")
@@ -277,6 +277,7 @@ func c20Stack(r *fw.Run, cs *c20ctx) {
 		}
 		pop = f
 	}
+	c20PushCtx(ru, cs, push, pushStores, isRecover)
 	if pop == nil {
 		ru.Undecided("anchor:pop closure", p.Rel(push.Pos()), "the cancel function returned by Push is not a single closure")
 	} else {
@@ -455,7 +456,7 @@ func c20Stack(r *fw.Run, cs *c20ctx) {
 			ru.Fail(key, pos, "the trigger goroutine calls cancel functions in a loop over the stack: an interrupt must cancel only the innermost evaluation")
 		case !info.P.Equal(info.len.Sub(fw.PConst(1))):
 			ru.Fail(key, pos, fmt.Sprintf("the trigger goroutine calls element %s, not the top len-1: an interrupt must cancel the innermost evaluation only", info.P))
-		case !info.env.Proves(ec.ia.Block(), fw.Cmp{P: info.P, Rel: fw.GE}):
+		case !info.env.Proves(ec.ia.Block(), fw.Cmp{P: info.P, Rel: fw.GE}) && !c20LenNonZero(info, ec.ia.Block()):
 			ru.Fail(key, pos, "no dominating test proves the stack non-empty: an interrupt before the first Push indexes [-1] and crashes fq")
 		case fw.InstrReach(ec.site, ec.site, wait):
 			ru.Fail(key, pos, "the cancel call can repeat without a new trigger in between")
@@ -566,7 +567,7 @@ func c20Pop(ru *fw.Rule, cs *c20ctx, pop *ssa.Function, idxCell *ssa.Alloc, fiel
 					continue
 				}
 				setTo := c.Value.String() == "true"
-				if setTo != val && precedesOnAllPaths(st, e) {
+				if setTo != val && (precedesOnAllPaths(st, e) || c20FollowedBy(e, st, isRecover)) {
 					okE = true
 					v := setTo
 					doneVal, flag = &v, f.fv
@@ -584,12 +585,15 @@ func c20Pop(ru *fw.Rule, cs *c20ctx, pop *ssa.Function, idxCell *ssa.Alloc, fiel
 	if len(calls) == 0 {
 		ru.Fail("pop:cancels from own index", p.Rel(pop.Pos()), "the pop closure does not cancel the entries at and above its own index (abandoned nested evaluations stay alive)")
 	}
+	covered, coverKnown := false, true
+	ownCancelled := c20PopCancelsOwn(cs, pop)
 	for i, ec := range calls {
 		key := fmt.Sprintf("pop:cancels from own index#%d", i+1)
 		pos := p.Rel(ec.call.Pos())
 		info, msg := cs.indexInfo(ec.call.Parent(), ec.ia.Index, field)
 		if info == nil || info.len == nil {
 			ru.Undecided(key, pos, "index not understood: "+msg)
+			coverKnown = false
 			continue
 		}
 		// the closure's own index as named where the call is (the closure, or a helper it is passed to)
@@ -605,11 +609,25 @@ func c20Pop(ru *fw.Rule, cs *c20ctx, pop *ssa.Function, idxCell *ssa.Alloc, fiel
 		}
 		if own == nil {
 			ru.Undecided(key, pos, "the helper calling the cancel functions does not receive the closure's own index")
+			coverKnown = false
 			continue
 		}
 		b := ec.ia.Block()
 		top := info.len.Sub(fw.PConst(1))
 		lower := info.env.Proves(b, fw.Cmp{P: info.P.Sub(own), Rel: fw.GE})
+		// coverage: this call visits EVERY index of [own, len-1] (own itself may instead be
+		// cancelled through the captured cancel function of the pushed context)
+		if info.loop && info.P.Coef(c20LoopVar) == 1 {
+			exactGE := exactFact(info.env, b, fw.Cmp{P: info.P.Sub(own), Rel: fw.GE})
+			exactGT := exactFact(info.env, b, fw.Cmp{P: info.P.Sub(own), Rel: fw.GT})
+			switch {
+			case info.step == -1 && info.init.Equal(top) && (exactGE || (exactGT && ownCancelled)):
+				covered = true
+			case info.step == 1 && exactFact(info.env, b, fw.Cmp{P: info.P.Sub(info.len), Rel: fw.LT}) &&
+				(info.init.Equal(own) || (ownCancelled && info.init.Equal(own.Add(fw.PConst(1))))):
+				covered = true
+			}
+		}
 		noLower := fmt.Sprintf("called element index %s is not proven >= the closure's own index: finishing an evaluation would cancel ENCLOSING evaluations (facts: %v)", info.P, info.env.Facts(b))
 		switch {
 		case !info.loop:
@@ -625,6 +643,11 @@ func c20Pop(ru *fw.Rule, cs *c20ctx, pop *ssa.Function, idxCell *ssa.Alloc, fiel
 		default:
 			ru.Fail(key, pos, fmt.Sprintf("loop step %d", info.step))
 		}
+	}
+
+	if len(calls) > 0 && coverKnown {
+		ru.Check(covered, "pop:cancels every entry from own index", p.Rel(pop.Pos()), "one loop visits every index own..len-1 (step 1, exact bounds)",
+			"no loop of the pop closure calls EVERY cancel function from its own index up to len-1 (the called index does not follow the loop variable, or a bound is off): an abandoned nested evaluation is dropped from the stack by the truncation without being cancelled and keeps running, no interrupt can reach it any more")
 	}
 
 	// ---- truncation to [0:own index] on every effective path
